@@ -53,6 +53,33 @@ Theorem C07_entry_points : forall i : inp,
 Proof. exact entry_points. Qed.
 Print Assumptions C07_entry_points.
 
+(* the same for EVERY board content (no article at all, articles but no pinned one, pinned ones only, both; the
+   article file / post template present or not; the pinned counter of the shared segment loaded or not): the validity
+   query answers [may_read], and every other article entry point answers "not permitted" — read from the error
+   value, [refused], never from whether the payload is empty — exactly when [may_read] is false. In particular an
+   entry point that looks at the content first (returning an empty list for an empty board before asking the rule)
+   does not satisfy this statement. *)
+Theorem C07_entry_points_any_content : forall (i : inp) (c : content),
+  epc_is_board_valid_user i c = Data (may_read i) /\
+  refused (epc_load_general_articles i c) = negb (may_read i) /\
+  refused (epc_load_bottom_articles i c) = negb (may_read i) /\
+  refused (epc_find_article_start_idx i c) = negb (may_read i) /\
+  (forall fn0, (fn0 =? 76) || (fn0 =? 0) = false -> refused (epc_read_post i fn0 c) = negb (may_read i)) /\
+  refused (epc_read_post_template i c) = negb (may_read i).
+Proof. exact entry_points_any_content. Qed.
+Print Assumptions C07_entry_points_any_content.
+
+(* ... and what a permitted caller receives is the board's content: the records (the empty list where the counter
+   is 0), the position, the file (or the error of the missing file) *)
+Theorem C07_entry_points_content_data : forall (i : inp) (c : content), may_read i = true ->
+  epc_load_general_articles i c = Data (if c_total c =? 0 then [] else c_recs c) /\
+  epc_load_bottom_articles i c = Data (if c_nbottom c =? 0 then [] else c_pinned c) /\
+  epc_find_article_start_idx i c = (if c_total c =? 0 then OtherErr 2 else Data (c_idx c)) /\
+  (forall fn0, (fn0 =? 76) || (fn0 =? 0) = false -> epc_read_post i fn0 c = file_outcome (c_body c)) /\
+  epc_read_post_template i c = file_outcome (c_template c).
+Proof. exact entry_points_content_data. Qed.
+Print Assumptions C07_entry_points_content_data.
+
 (* board listings (general, auto-complete, by ids, hot): what is shown is a board the caller may read, or
    administers, or is a named moderator of — and it then carries its title; conversely such a board that passes
    the listing's own filter (named, not a group/link where the listing excludes those, keyword) is shown *)
